@@ -6059,12 +6059,7 @@ bool SoPlexBase<R>::setIntParam(const IntParam param, const int value, const boo
 #endif
          break;
 #else
-         _simplifier = &_simplifierMainSM;
-         assert(_simplifier != nullptr);
-#ifdef SOPLEX_WITH_MPFR
-         _boostedSimplifier = &_boostedSimplifierMainSM;
-         assert(_boostedSimplifier != nullptr);
-#endif
+         // not available in this build: reject without touching the active simplifier
          return false;
 #endif
 
